@@ -89,15 +89,38 @@ def run_prop(ctx, pid):
             script["err"] = traceback.format_exc()
         script["s"] = round(time.time() - t, 1)
 
+    # C04 only: the chain watcher (its own OpenChannel snapshot) must recognise every revoked
+    # commitment as a breach (props/breachwatch.py, harness/contractcourt)
+    bw = {"res": None, "err": None}
+
+    def breachwatch_stage():
+        try:
+            from props import breachwatch
+            bw["res"] = breachwatch.run_stage(ctx)
+        except Exception:
+            import traceback
+            bw["err"] = traceback.format_exc()
+
     th = None
     if not os.environ.get("VERIF_PUNISH_NO_SCRIPT"):
         th = threading.Thread(target=script_stage)
         th.start()
+    th2 = None
+    if pid == "C04" and not os.environ.get("VERIF_PUNISH_NO_BREACHWATCH"):
+        th2 = threading.Thread(target=breachwatch_stage)
+        th2.start()
     try:
         _history_stage(ctx, pid, sp, pr, cov)
     finally:
         if th is not None:
             th.join()
+        if th2 is not None:
+            th2.join()
+    if bw["err"]:
+        ctx.violation("harness_failed", "breachwatch stage crashed", {"traceback": bw["err"]},
+                      signature="breachwatch-stage-crashed", failing_input=False)
+    elif bw["res"] is not None:
+        cov["breachwatch_stage"] = bw["res"]
         import glob as _glob
         for f in _glob.glob(os.path.join(BUILD, "coq_eval", "cases_%s_*.v" % ctx.uid("p%d" % os.getpid()))) + \
                 _glob.glob(os.path.join(BUILD, "punish_replay_%s_p%d.json" % (pid, os.getpid()))):
